@@ -110,7 +110,14 @@ def register(T, repo):
                                         zint(t.fields['pos']) >= zint(pos),
                                         zint(t.fields['pos']) <
                                         zint(src.ln))))
-        return ListS(tm.TokS(pred, name='err'),
+        class ErrTokS(tm.TokS):
+            # tokens of an error mark are tagged (ghost): the hull clause of
+            # C04 does not apply to them (C08 places them)
+            def make(self, ex, st):
+                o = super().make(ex, st)
+                o.meta['errmark'] = True
+                return o
+        return ListS(ErrTokS(pred, name='err'),
                      lambda n: And(zint(n) >= 1, zint(n) <= 2), 'errtoks',
                      fresh=True)
 
@@ -271,12 +278,29 @@ def register(T, repo):
             return v.tag
         raise sym.EngineError('tok_typ %r' % (v,))
 
+    def fst_ghost(ex, st, mode, vals):
+        # ghost: are all input tokens language tokens?  (then so are the
+        # results, whatever tok_typ is)
+        if mode == 'proof':
+            return {'only_lang': sym.fresh_bool('only_lang')}
+        toks = vals['toks']
+        ok = True
+        if isinstance(toks, TokList):
+            for sg in toks.segs:
+                g = st.clone()
+                e = sg.obj if isinstance(sg, Single) else sg.mk(g)
+                if not ex.implied(g, tm.cls_is(ex, e, D + 'LanguageToken')):
+                    ok = False
+        return {'only_lang': ok}
+
     def fst_result(A):
         ex = A['$ex']
         tt = typ_tag(ex, A['tok_typ'])
 
         def pred(ex_, t):
             parts = [tm.cls_inv(ex_, t),
+                     Implies(A['only_lang'],
+                             tm.cls_is(ex_, t, D + 'LanguageToken')),
                      zint(t.fields['pos']) == zint(A['pos'])]
             if tt is None:
                 pass
@@ -289,9 +313,13 @@ def register(T, repo):
         return ListS(tm.TokS(pred, name='fs'), None, 'filtered', fresh=True)
 
     c = T.add(FContract(
-        U + 'filter_set_toks',
-        params={'toks': ListS(tm.TokS(lambda ex, t: tm.cls_inv(ex, t)),
-                              None, 'toks'),
-                'pos': IntS(name='pos'), 'tok_typ': OptS(tm.ClassS())},
+        U + 'filter_set_toks', ghosts=fst_ghost,
+        params=lambda G: {
+            'toks': ListS(tm.TokS(lambda ex, t: And(
+                tm.cls_inv(ex, t),
+                Implies(G['only_lang'],
+                        tm.cls_is(ex, t, D + 'LanguageToken')))),
+                None, 'toks'),
+            'pos': IntS(name='pos'), 'tok_typ': OptS(tm.ClassS())},
         result=fst_result, pure=True))
     return T
